@@ -308,7 +308,9 @@ impl C20 {
 
 	/// serial reference for an updater scenario: the operations (tasks[1..]) in the given
 	/// order, an updater pass before the i-th of them where bit i of `passes` is set, and
-	/// always a final pass (the updater finishes a pass after it was told to stop)
+	/// a final pass where bit n is set (after it was told to stop the updater finishes the
+	/// pass it is in, which may have begun before the last operation completed, or runs
+	/// one more)
 	fn run_serial_updater(ex: &mut Exec, w: usize, tasks: &[TaskSpec], order: &[usize], passes: u32) -> Vec<TaskOutcome> {
 		let mut outs: Vec<Option<TaskOutcome>> = vec![None; tasks.len()];
 		outs[0] = Some(TaskOutcome { ok: true, err: None, slate: None, panicked: false });
@@ -329,9 +331,11 @@ impl C20 {
 				Err(_) => TaskOutcome { ok: false, err: Some("panic".into()), slate: None, panicked: true },
 			});
 		}
-		let r = std::panic::catch_unwind(std::panic::AssertUnwindSafe(|| Self::updater_pass(ex, w)));
-		if r.is_err() {
-			outs[0] = Some(TaskOutcome { ok: false, err: Some("panic".into()), slate: None, panicked: true });
+		if passes & (1 << order.len()) != 0 {
+			let r = std::panic::catch_unwind(std::panic::AssertUnwindSafe(|| Self::updater_pass(ex, w)));
+			if r.is_err() {
+				outs[0] = Some(TaskOutcome { ok: false, err: Some("panic".into()), slate: None, panicked: true });
+			}
 		}
 		outs.into_iter()
 			.map(|o| o.unwrap_or(TaskOutcome { ok: false, err: Some("not run".into()), slate: None, panicked: false }))
@@ -777,7 +781,9 @@ impl C20 {
 			let mut v = vec![];
 			for p in Self::permutations(n_ops) {
 				let p: Vec<usize> = p.iter().map(|i| i + 1).collect();
-				for mask in 0..(1u32 << n_ops) {
+				// (bit n_ops: a pass after the last operation - the updater may also end
+				// with a pass that began before the last operation completed)
+				for mask in 0..(1u32 << (n_ops + 1)) {
 					v.push((p.clone(), mask));
 				}
 			}
